@@ -144,14 +144,21 @@ impl StreamUniRemoteH3 {
 // a peer-opened bidirectional stream after its first (non-WebTransport) frame
 // `expected`: the refusal code the specification prescribes for the request on this stream (a ghost
 // label fixed by the caller's precondition; see `expected_refusal`)
-struct StreamBiRemoteH3 { id: u64, expected: Ghost<Option<ErrorCode>> }
+enum Refusal { Malformed, Unwanted }
+struct StreamBiRemoteH3 { id: u64, expected: Ghost<Option<Refusal>> }
 struct StreamSession { id: u64, request: SessionRequest }
 impl StreamBiRemoteH3 {
     // MONITOR: a request stream is only ever stopped to refuse the request on it, and with the code
     // the specification prescribes for that request
     #[verifier::external_body]
     fn stop(&mut self, error_code: VarInt) -> (r: Result<(), AlreadyStop>)
-        requires old(self).expected@ matches Some(e) && error_code.v == registry(e),
+        requires
+            old(self).expected@ matches Some(cls) && (match cls {
+                // RFC 9114 4.1.2: a malformed request is a stream error H3_MESSAGE_ERROR
+                Refusal::Malformed => error_code.v == registry(ErrorCode::Message),
+                // a well-formed request this endpoint does not serve: rejected or message error
+                Refusal::Unwanted => error_code.v == registry(ErrorCode::RequestRejected) || error_code.v == registry(ErrorCode::Message),
+            }),
         ensures r is Ok, *final(self) == *old(self),
     { unimplemented!() }
     fn into_session(self, session_request: SessionRequest) -> (r: StreamSession)
@@ -497,14 +504,17 @@ spec fn uni_post(before: Worker, after: Worker, stream: StreamUniRemoteH3, r: Re
 // RFC 9114 4.1 / 7.2.1 / 7.2.4 and RFC 9220: the first frame of a request stream must be HEADERS
 // (DATA or SETTINGS: connection error H3_FRAME_UNEXPECTED; an undecodable field section: the
 // decoder's connection error); a request that is not a WebTransport extended CONNECT is refused
-// ON ITS STREAM (H3_REQUEST_REJECTED when the method is not CONNECT, else H3_MESSAGE_ERROR - monitor on
-// `stop`) and the connection goes on (Ok); an admitted request is handed to the application queue.
-spec fn expected_refusal(first_frame: Frame) -> Option<ErrorCode> {
+// ON ITS STREAM (monitor on `stop`: H3_MESSAGE_ERROR for a malformed request - RFC 9114 4.1.2 -, that or
+// H3_REQUEST_REJECTED for a well-formed request this endpoint does not serve) and the connection goes on (Ok); an admitted request is handed to the application queue.
+spec fn expected_refusal(first_frame: Frame) -> Option<Refusal> {
     if first_frame.kind_spec() == FrameKind::Headers {
         match headers_of(first_frame.payload_spec()) {
             Ok(h) => match request_of(h) {
-                Err(HeadersParseError::MethodNotConnect) => Some(ErrorCode::RequestRejected),
-                Err(_) => Some(ErrorCode::Message),
+                Err(HeadersParseError::MethodNotConnect) => Some(Refusal::Unwanted),
+                Err(HeadersParseError::SchemeNotHttps) => Some(Refusal::Unwanted),
+                Err(HeadersParseError::ProtocolNotWebTransport) => Some(Refusal::Unwanted),
+                // a mandatory pseudo-header is missing: malformed
+                Err(_) => Some(Refusal::Malformed),
                 Ok(_) => None,
             },
             Err(_) => None,
